@@ -14,9 +14,18 @@ log   := [[sym, [[units]…], [units]]…]
   {"op":"regen", …same…, "ro":bool}   regen_children branch, marking as the CURRENT source does
         (Generated.regenMarksReadOnly)
   {"op":"replace","tree":T,"path":[…],"repl":T} → {"tree":T}
+  {"op":"replace_multiple","spec":S+{"deps":[[sym,[dep…]]…],"rules":[sym…]},"tree":T,"repl":[[[steps…],T]…],
+   "log":L (calls before, oldest first),"values":[[units]|null…] (what the generator expression returned at the
+   k-th call of this operation; null = it raised),"parses":[[sym,[units],[T…]|null]…] (the real parser's answers),
+   "fuel":n}
+        → {"tree":T,"log":L' (oldest first, the calls of this operation only),"installs":[[path syms, T]…],
+           "inv":bool,"srcok":bool,"installs_ok":bool}
+        | {"err":kind}
+        the whole of DerivationTree.replace_multiple (Model/GenReplace.lean `replaceTop`)
+  {"op":"srcok","spec":S,"path":[…],"tree":T} → {"ok":bool}
 -/
 import Driver.Common
-import Model.Gen
+import Model.GenReplace
 import Generated.GenFlags
 open Lean FV FV.Drv FV.Gen
 
@@ -50,7 +59,18 @@ def specOf (j : Json) : Except String Spec := do
     let a ← r.getArr?
     let ps ← (← (a[1]?.getD Json.null).getArr?).toList.mapM (fun x => x.getStr?)
     pure ((← (a[0]?.getD Json.null).getStr?), ps))
-  return { gens := gens }
+  let pairs (key : String) : Except String (List (String × List String)) :=
+    match j.getObjVal? key with
+    | .error _ => pure []
+    | .ok v => do
+      (← v.getArr?).toList.mapM (fun r => do
+        let a ← r.getArr?
+        let ps ← (← (a[1]?.getD Json.null).getArr?).toList.mapM (fun x => x.getStr?)
+        pure ((← (a[0]?.getD Json.null).getStr?), ps))
+  let rules ← match j.getObjVal? "rules" with
+    | .error _ => pure []
+    | .ok v => do (← v.getArr?).toList.mapM (fun x => x.getStr?)
+  return { gens := gens, deps := ← pairs "deps", rules := rules }
 
 def entryOf (j : Json) : Except String LogEntry := do
   let a ← j.getArr?
@@ -64,6 +84,12 @@ def jErr' : FV.Gen.Err → Json
   | .noGenerator => Json.mkObj [("err", "noGenerator")]
   | .missingParam => Json.mkObj [("err", "missingParam")]
   | .parseError => Json.mkObj [("err", "parseError")]
+  | .genRaised => Json.mkObj [("err", "genRaised")]
+  | .missingConverter => Json.mkObj [("err", "missingConverter")]
+  | .undefinedSymbol => Json.mkObj [("err", "undefinedSymbol")]
+  | .topoError => Json.mkObj [("err", "topoError")]
+  | .notNonterminal => Json.mkObj [("err", "notNonterminal")]
+  | .fuel => Json.mkObj [("err", "fuel")]
 
 end FV.Drv
 
@@ -103,6 +129,47 @@ def handle (j : Json) : Except String Json := do
     let p ← natArr (← j.getObjVal? "path")
     let u ← gtreeOf (← j.getObjVal? "repl")
     return Json.mkObj [("tree", jGTree (replaceAt t p u))]
+  | "srcok" =>
+    let S ← specOf (← j.getObjVal? "spec")
+    let path ← (← (← j.getObjVal? "path").getArr?).toList.mapM (fun x => x.getStr?)
+    let t ← gtreeOf (← j.getObjVal? "tree")
+    return Json.mkObj [("ok", Json.bool (srcOKB S path t))]
+  | "replace_multiple" =>
+    let S ← specOf (← j.getObjVal? "spec")
+    let t ← gtreeOf (← j.getObjVal? "tree")
+    let repl ← (← (← j.getObjVal? "repl").getArr?).toList.mapM (fun r => do
+      let a ← r.getArr?
+      pure ((← natArr (a[0]?.getD Json.null)), (← gtreeOf (a[1]?.getD Json.null))))
+    let log0 := (← (← (← j.getObjVal? "log").getArr?).toList.mapM entryOf).reverse
+    let values ← (← (← j.getObjVal? "values").getArr?).mapM (fun v =>
+      match v with
+      | Json.null => pure (none : Option Gen.Val)
+      | x => do pure (some (← natArr x)))
+    let parses ← (← (← j.getObjVal? "parses").getArr?).toList.mapM (fun r => do
+      let a ← r.getArr?
+      let kids ← match a[2]?.getD Json.null with
+        | Json.null => pure none
+        | x => do pure (some (← (← x.getArr?).toList.mapM gtreeOf))
+      pure ((← (a[0]?.getD Json.null).getStr?), (← natArr (a[1]?.getD Json.null)), kids))
+    let fuel ← j.getObjValAs? Nat "fuel"
+    let parse : Parser := fun s v =>
+      match parses.find? (fun p => p.1 == s && p.2.1 == v) with
+      | some p => p.2.2
+      | none => none
+    let gen : Nat → String → List Gen.Val → Option Gen.Val := fun n _ _ =>
+      match values[n - log0.length]? with
+      | some v => v
+      | none => none
+    let E : Env := ⟨S, parse, gen⟩
+    match replaceTop E repl fuel t log0 with
+    | .error e => return jErr' e
+    | .ok o =>
+      let calls := (o.log.take (o.log.length - log0.length)).reverse
+      let instOk := o.inst.all (fun i => genInvB S o.log i.1 i.2 && srcOKB S i.1 i.2)
+      return Json.mkObj [("tree", jGTree o.tree), ("log", Json.arr (calls.map jEntry).toArray),
+        ("installs", Json.arr (o.inst.map (fun i => Json.arr #[Json.arr (i.1.map Json.str).toArray, jGTree i.2])).toArray),
+        ("inv", Json.bool (genInvB S o.log [] o.tree)), ("srcok", Json.bool (srcOKB S [] o.tree)),
+        ("installs_ok", Json.bool instOk)]
   | _ => throw s!"unknown op {op}"
 
 def main : IO Unit := run handle
